@@ -22,7 +22,7 @@ def run(tier, seed):
     configs = ["K17"] if tier == "quick" else ["K17", "K20"]
     for cfg in configs:
         try:
-            ctx = lib.Ctx(cfg, EXTRA)
+            ctx = lib.Ctx(cfg, EXTRA, lowbits_canon=True)
             x = sym(0)
             r = ctx.run("w_floor", [DOM])
             lib.check_regions(V, r, [("domain", [], ("diff", 1, x, -65535, 0)), ("integer", [], ("tz", 16))],
